@@ -32,6 +32,10 @@ class RspHandler:
         with self._lock:
             wire_data = self.rsp_pack(data)
             self.logger.debug("--> %s", wire_data)
+            while not self._ack_queue.empty():
+                # An ack which arrived while nothing was sent is not ours.
+                stale = self._ack_queue.get_nowait()
+                self.logger.warning("discards stale %s", stale)
             self.send(wire_data)
             res = self._ack_queue.get(timeout=0.5)
             while res != "+":
